@@ -60,7 +60,9 @@ impl HMAT {
 
     fn update_header(&mut self, len: u32, sum: u8) {
         let old_len = self.header.length.get();
-        let new_len = len + old_len;
+        let new_len = old_len
+            .checked_add(len)
+            .expect("table length overflows the 32-bit Length field");
         self.header.length.set(new_len);
 
         // Remove the bytes from the old length, add the new length
@@ -252,6 +254,8 @@ impl SystemLocality {
 
 impl Aml for SystemLocality {
     fn to_aml_bytes(&self, sink: &mut dyn AmlSink) {
+        // the structure length and both domain counts are 32-bit fields
+        assert!(self.len() <= u32::MAX as usize);
         sink.word(HmatStructureType::SystemLocality as u16);
         sink.word(0); // reserved
         sink.dword(self.len() as u32);
